@@ -171,6 +171,15 @@ bool Symmetrizer::checkSymmetry(const Operator &in)
         if (!OperatorPresets::n(i).commutes(*OP1)) return false;
     }
 
+    // A symmetry operation must be additive: [OP, c^+_i] = a_i c^+_i for every i. Otherwise a single
+    // c^+_i connects a block of states to several blocks, which the block maps of field operators cannot represent.
+    for(ParticleIndex i = 0; i < IndexSize; ++i) {
+        Operator cdag = OperatorPresets::c_dag(i);
+        Operator comm = OP1->getCommutator(cdag);
+        for (Operator::const_iterator it = comm.begin(); it != comm.end(); ++it)
+            if (it->first.size() != 1 || !(it->first[0] == cdag.begin()->first[0])) return false;
+    }
+
     Operations.push_back(OP1);
     NSymmetries++;
     return true;
